@@ -305,6 +305,30 @@ pub fn run(tier: Tier) -> Report {
                                 dirty_since_gen = true;
                             }
                         }
+                        // an operation that builds a NEW box value (clone, by-value rotate) hands out either no
+                        // polygon or the polygon of the box it returns - never the polygon of the box it was
+                        // made from (in-place changes of public fields are the caller's business and not judged)
+                        if matches!(op, COp::CloneBox | COp::Rotate(_)) {
+                            if let Some(p) = b.get_cached_vertices() {
+                                if !same(p, &b) {
+                                    rep.violation(Violation { key: "polygon/new-box-value-carries-foreign-polygon".into(), what: format!("after {word:?} on start box {si} the returned box {b:?} carries a generated polygon that is not its own"), replay: json!({"part":"polygon-cache","start":si,"ops":format!("{word:?}")}) });
+                                }
+                            }
+                            // and what is computed from it uses the box as it is
+                            let other = Universal2DBox::new(b.xc + 0.25 * b.height, b.yc, Some(0.2), b.aspect, b.height);
+                            let fresh = Universal2DBox::new_with_confidence(b.xc, b.yc, b.angle, b.aspect, b.height, b.confidence);
+                            use geo::Area;
+                            // (the method consumes its arguments; the clone drops any cached polygon, so the box is rebuilt by hand)
+                            let mut carried = Universal2DBox::new_with_confidence(b.xc, b.yc, b.angle, b.aspect, b.height, b.confidence);
+                            std::mem::swap(&mut carried, &mut b);
+                            let a1 = carried.sutherland_hodgman_clip(other.clone()).unsigned_area();
+                            let a2 = fresh.sutherland_hodgman_clip(other).unsigned_area();
+                            if (a1 - a2).abs() > 1e-9 * a2.abs().max(1.0) {
+                                rep.violation(Violation { key: "polygon/clip-of-new-box-value-uses-foreign-polygon".into(), what: format!("after {word:?} on start box {si}: sutherland_hodgman_clip of the returned box gives area {a1}, of a freshly constructed box with the same fields {a2}"), replay: json!({"part":"polygon-cache","start":si,"ops":format!("{word:?}")}) });
+                            }
+                            had_cache = false;
+                            dirty_since_gen = false;
+                        }
                         if !same(&b.get_vertices(), &b) {
                             rep.violation(Violation { key: "polygon/get_vertices-after-changes".into(), what: format!("after {word:?} on start box {si} get_vertices() is not the polygon of {b:?}"), replay: json!({"part":"polygon-cache","start":si,"ops":format!("{word:?}")}) });
                         }
